@@ -25,7 +25,7 @@ pub open spec fn bracket(inner: Toks) -> Toks { grp(Delimiter::Bracket, inner) }
 pub open spec fn nil() -> Toks { Seq::<Tok>::empty() }
 
 #[verifier::external_body]
-pub struct TokenStream { _p: core::marker::PhantomData<()> }
+pub struct TokenStream { _p: ::core::marker::PhantomData<()> }
 
 impl View for TokenStream {
     type V = Seq<Tok>;
@@ -85,7 +85,7 @@ impl<'a, T: ToTokens + ?Sized> ToTokens for &'a T {
 } // verus!
 
 pub mod __private {
-    pub use core::stringify;
+    pub use ::core::stringify;
     pub use super::__private_rep::push_all;
     pub use super::TokenStream;
     pub use super::Delimiter;
